@@ -30,6 +30,7 @@ func TestReplay(t *testing.T) {
 			fmt.Printf("REPLAY file=%s result=harness-error msg=%q\n", p, "no spec "+rf.Property+"/"+rf.Sub)
 			continue
 		}
+		fmt.Printf("REPLAY-BEGIN file=%s\n", p)
 		if err := fn(rf.Case); err != nil {
 			msg := err.Error()
 			if len(msg) > 600 {
